@@ -114,3 +114,134 @@ def sympy_truth_table(names, exprs):
             v = e.subs(env) if hasattr(e, "subs") else e
             out.append("1" if bool(v) else "0")
     return "".join(out)
+
+
+# ----------------------------------------------------------------------------- shared sub-expressions
+# The expressions of a wide arithmetic program (a product over Qint[12] / Qint[16] operands) share their
+# sub-expressions: as objects in memory they are a small graph, as trees they have 10^5 ... 10^10 nodes.
+# `dag_of_defs` linearises a definition list into one node list (every sympy object once, found by identity),
+# `dag_rows` evaluates it sequentially on given rows.  Independent of sympy's own evaluation.
+def dag_of_defs(exprs, argbits=()):
+    """[(name, sympy expr)] -> dict(nodes, free, defined).
+
+    nodes: list of tuples in evaluation order:
+      ("tt",) ("ff",) ("sym", name) ("not", i) ("and", [i…]) ("or", [i…]) ("xor", [i…]) ("ite", c, t, e)
+      ("imp", a, b) ("def", name, i)        (i = index of an earlier node)
+    A symbol is read where its node stands: when a name that was read or defined before is defined again, the
+    objects seen so far are forgotten (the same sympy object then means another value).
+    free: symbols read that are neither argument bits nor defined earlier."""
+    nodes, memo, keep = [], {}, []
+    known, free, touched = set(argbits), [], set()
+
+    def leaf(e):
+        if e is True or isinstance(e, BooleanTrue):
+            return ("tt",)
+        if e is False or isinstance(e, BooleanFalse):
+            return ("ff",)
+        if isinstance(e, Symbol):
+            return ("sym", e.name)
+        return None
+
+    def tag_of(e):
+        for cls, t in ((Not, "not"), (And, "and"), (Or, "or"), (Xor, "xor"), (ITE, "ite"), (Implies, "imp")):
+            if isinstance(e, cls):
+                return t
+        raise ValueError(f"not a modelled boolean expression: {str(e)[:80]!r} ({type(e).__name__})")
+
+    def add(e):
+        """index of the node of e (iterative post-order; children first)"""
+        stack = [(e, False)]
+        while stack:
+            x, done = stack.pop()
+            if id(x) in memo:
+                continue
+            lf = leaf(x)
+            if lf is not None:
+                if lf[0] == "sym":
+                    touched.add(lf[1])
+                    if lf[1] not in known and lf[1] not in free:
+                        free.append(lf[1])
+                memo[id(x)] = len(nodes)
+                keep.append(x)
+                nodes.append(lf)
+                continue
+            t = tag_of(x)
+            if not done:
+                stack.append((x, True))
+                for a in x.args:
+                    if id(a) not in memo:
+                        stack.append((a, False))
+                continue
+            idx = [memo[id(a)] for a in x.args]
+            memo[id(x)] = len(nodes)
+            keep.append(x)
+            if t == "not":
+                nodes.append(("not", idx[0]))
+            elif t == "ite":
+                nodes.append(("ite", idx[0], idx[1], idx[2]))
+            elif t == "imp":
+                nodes.append(("imp", idx[0], idx[1]))
+            else:
+                nodes.append((t, idx))
+        return memo[id(e)]
+
+    defined = []
+    for s, e in exprs:
+        name = s if isinstance(s, str) else s.name
+        i = add(e)
+        nodes.append(("def", name, i))
+        if name in touched:
+            memo.clear()
+        touched.add(name)
+        known.add(name)
+        defined.append(name)
+    return dict(nodes=nodes, free=free, defined=defined, _keep=keep)
+
+
+def dag_rows(dag, argbits, retbits, ks):
+    """one string of return bits per row number in ks (argument bit i = bit i of k; unbound symbol = False)"""
+    nodes = dag["nodes"]
+    out = []
+    n = len(nodes)
+    for k in ks:
+        env = {b: bool((k >> i) & 1) for i, b in enumerate(argbits)}
+        val = [False] * n
+        for i, nd in enumerate(nodes):
+            t = nd[0]
+            if t == "sym":
+                val[i] = env.get(nd[1], False)
+            elif t == "and":
+                v = True
+                for j in nd[1]:
+                    if not val[j]:
+                        v = False
+                        break
+                val[i] = v
+            elif t == "xor":
+                v = False
+                for j in nd[1]:
+                    v ^= val[j]
+                val[i] = v
+            elif t == "or":
+                v = False
+                for j in nd[1]:
+                    if val[j]:
+                        v = True
+                        break
+                val[i] = v
+            elif t == "not":
+                val[i] = not val[nd[1]]
+            elif t == "def":
+                env[nd[1]] = val[nd[2]]
+            elif t == "tt":
+                val[i] = True
+            elif t == "ff":
+                val[i] = False
+            elif t == "ite":
+                val[i] = val[nd[2]] if val[nd[1]] else val[nd[3]]
+            elif t == "imp":
+                val[i] = (not val[nd[1]]) or val[nd[2]]
+            else:
+                raise ValueError(t)
+        out.append("".join("1" if env.get(r, False) else "0" for r in retbits))
+    return out
